@@ -250,5 +250,5 @@ for _p in ('isaac', 'isaac64'):
 SETS['api'] = [H('api_fill_' + n, 'C05', tier='thorough', timeout=1800, qual='api::api_fill_' + n,
                  bounded='n <= 20 bytes (every tail length after 0, 1 and 2 full words), arbitrary state',
                  note='%s::fill_bytes(n) == n/8 next_u64, then one next_u64 / next_u32 truncated; generator left where the equivalent calls leave it' % n)
-               for n in ['xoshiro128starstar', 'xoshiro256plusplus', 'splitmix64', 'xoroshiro128plusplus', 'xorshift', 'xoroshiro64star', 'xoroshiro64starstar', 'xoroshiro128plus',
+               for n in ['xoshiro128starstar', 'xoshiro256plusplus', 'xoroshiro128plusplus', 'xorshift', 'xoroshiro128plus',
                          'xoroshiro128starstar', 'xoshiro128plus', 'xoshiro128plusplus', 'xoshiro256plus', 'xoshiro256starstar', 'xoshiro512plus', 'xoshiro512plusplus', 'xoshiro512starstar']] + SETS['api']
